@@ -111,8 +111,8 @@ def _cls(obs, case, parts, pattern):
     nt = (parts.get("port") is not None or parts["hostkind"] == "v6" or parts.get("query") or parts.get("userinfo")
           or ";" in parts["path"] or fall)
     obs.cls = (case.get("mode", "parse"), parts["scheme"], f"host:{parts['hostkind']}", f"port:{'explicit' if parts.get('port') is not None else 'default'}",
-               f"query:{int(bool(parts.get('query')))}", f"userinfo:{int(bool(parts.get('userinfo')))}", f"addrs:{len(pattern)}", f"fallthrough:{int(fall)}")
-    obs.nt = (urlgen.build_url(parts), tuple(pattern), case.get("timeout"), repr(case.get("sockopt"))) if nt else None
+               f"query:{int(bool(parts.get('query')))}", f"userinfo:{int(bool(parts.get('userinfo')))}", f"addrs:{len(pattern)}", f"fallthrough:{int(fall)}", f"rows-differ-in-scope-id-only:{int(bool(case.get('scoped')))}")
+    obs.nt = (urlgen.build_url(parts), tuple(pattern), case.get("timeout"), repr(case.get("sockopt")), bool(case.get("scoped"))) if nt else None
 
 
 def run_connect(case):
@@ -126,6 +126,9 @@ def run_connect(case):
     net = simnet.Net()
     v6 = parts["hostkind"] == "v6"
     ips = [(f"fd00::{i + 1}" if v6 else f"10.0.0.{i + 1}") for i in range(len(pattern))]
+    if case.get("scoped"):
+        # one link-local address reachable through several interfaces: the rows differ in the scope id only
+        ips = [f"fe80::1%{i + 2}" for i in range(len(pattern))]
     net.dns[host] = ips
     for ip, oc in zip(ips, pattern):
         net.endpoint[(ip, port)] = ("errno", errno.EHOSTDOWN) if oc == "other" else oc
@@ -261,7 +264,7 @@ def cases(draw):
     if draw(st.integers(0, 5)) == 0:
         sp = parts["scheme"]
         parts["scheme_spelling"] = draw(st.sampled_from([sp.upper(), sp.capitalize(), sp[:-1] + sp[-1].upper()]))
-    return {"mode": "connect", "url": parts, "addrs": pattern, "api": draw(st.sampled_from(["connect", "create_connection", "app"])),
+    return {"mode": "connect", "url": parts, "addrs": pattern, "api": draw(st.sampled_from(["connect", "create_connection", "app"])), "scoped": draw(st.integers(0, 3)) == 0,
             "timeout": draw(st.sampled_from([None, 0.5, 3, 7.25, 60])),
             "sockopt": draw(st.lists(st.sampled_from([[S.SOL_SOCKET, S.SO_REUSEADDR, 1], [S.SOL_TCP, S.TCP_NODELAY, 0], [S.SOL_SOCKET, S.SO_RCVBUF, 4096]]), max_size=2))}
 
@@ -273,6 +276,8 @@ def pattern_cases():
                 parts = {"scheme": scheme, "host": "multi.test", "hostkind": "name", "port": None if n % 2 else 9000 + n, "path": "/p;v=1", "query": "a=1", "userinfo": None}
                 yield {"mode": "connect", "url": parts, "addrs": list(pat), "api": ("connect", "create_connection", "app")[(n + len(scheme)) % 3],
                        "timeout": (None, 2.5, 10)[n % 3], "sockopt": [[S.SOL_SOCKET, S.SO_REUSEADDR, 1]] if n > 2 else []}
+                if scheme == "ws" and n > 1:
+                    yield {"mode": "connect", "url": parts, "addrs": list(pat), "api": ("connect", "create_connection", "app")[(n + 1) % 3], "timeout": 5, "sockopt": [], "scoped": True}
 
 
 def scheme_case_cases():
